@@ -7,6 +7,7 @@ Strings travel as hex (JSON cannot carry invalid UTF-8).
 """
 import glob
 import json
+import re
 import os
 import shutil
 
@@ -52,7 +53,10 @@ RULE = ("(template, identifier) pairs: templates from a grammar prefix+go+betwee
         "templates wrapped in white space of 13 kinds; styles containing other product words such as zero/Zero/ZERO/goctl/design in "
         "prefix, separator, suffix or in place of designer), and for 30% of the cases a history of 3-10 configuration operations in the same "
         "process (NewConfig of the default / explicit / blank styles, owner assignments to cfg.NamingFormat, reads, formatting "
-        "with a kept configuration, unknown handles); identifiers: snake, camel, Pascal, acronyms, repeated/leading/trailing underscores, digit words, "
+        "with a kept configuration, unknown handles); about 10% of the cases (all default-style ones) run in driver processes "
+        "started with one of 8 adversarial environments (34 GOD_*/GOCTL_*/NAMING_* style variables plus every name the sources "
+        "pass to os.Getenv/LookupEnv set to valid and invalid templates, LANG/LC_ALL variants, TZ, HOME and working directory "
+        "full of decoy config files); identifiers: snake, camel, Pascal, acronyms, repeated/leading/trailing underscores, digit words, "
         "punctuation and spaces, a fixed set of non-ASCII runes, invalid UTF-8, empty; a third of the cases use an "
         "identifier of the round-trip grammar. non-trivial = accepted template with a non-empty identifier, or a "
         "rejected template that contains both words, or a round-trip identifier with >= 2 words; distinct = distinct "
@@ -374,6 +378,73 @@ def gen_history(rng, t, c):
     return ops
 
 
+# ---- adversarial process environments: neither NewConfig nor FileNamingFormat may look at them
+ENV_NAMES = ["GOD_NAMING_FORMAT", "GOD_STYLE", "GOCTL_STYLE", "NAMING_FORMAT", "GOD_FORMAT", "GOD_NAMING_STYLE", "GOD_NAMINGFORMAT",
+             "GOD_DEFAULT_FORMAT", "GOD_DEFAULT_STYLE", "GOCTL_NAMING_FORMAT", "GOCTL_FORMAT", "NAMINGFORMAT", "NAMING_STYLE",
+             "DEFAULT_FORMAT", "STYLE", "FORMAT", "GOD_CONFIG", "GOCTL_CONFIG", "GOD_HOME", "GOCTL_HOME", "GOD", "GOCTL",
+             "GODESIGNER", "GOD_DESIGNER", "GOD_GO", "GOD_UPPER", "GOD_LOCALE", "GOD_EXPERIMENTAL", "GOCTL_EXPERIMENTAL", "GOD_DEBUG",
+             "god_naming_format", "god_style", "naming_format", "namingFormat"]
+# (value given to every name above, locale)
+ENV_PROFILES = [
+    None,                                            # 0: the environment vcheck itself runs in
+    ("GO_DESIGNER", "tr_TR.UTF-8"),
+    ("goDesigner", "C"),
+    ("gozero", "zh_CN.GBK"),
+    (" ", "POSIX"),
+    ("designer_go", "az_AZ.UTF-8"),
+    ("gO#DeSigner", "lt_LT.UTF-8"),
+    ("Go-Designer.go", "el_GR.ISO-8859-7"),
+    ("1", "en_US"),
+]
+ENV_CWD = os.path.join(vlib.WORK, "C20cwd")
+_EXTRA_ENV_NAMES = []     # names the copied sources mention in os.Getenv / os.LookupEnv (filled by drive)
+
+
+def env_of(idx):
+    """environment additions and working directory of profile idx (0: none, the scratch module dir)"""
+    if not idx:
+        return {}, MOD_DIR
+    val, loc = ENV_PROFILES[idx % len(ENV_PROFILES) or 1]
+    e = {k: val for k in ENV_NAMES + _EXTRA_ENV_NAMES}
+    e.update({"LANG": loc, "LC_ALL": loc, "LC_CTYPE": loc, "LC_COLLATE": loc, "LANGUAGE": loc.split(".")[0], "TZ": "Pacific/Kiritimati",
+              "HOME": ENV_CWD, "XDG_CONFIG_HOME": ENV_CWD, "PWD": ENV_CWD})
+    return e, ENV_CWD
+
+
+def make_decoy_cwd(val):
+    """a working / home directory full of files a configuration loader might pick up"""
+    os.makedirs(ENV_CWD, exist_ok=True)
+    for sub in ("", ".god", ".goctl", ".config/god", "etc"):
+        d = os.path.join(ENV_CWD, sub)
+        os.makedirs(d, exist_ok=True)
+        for fn in ("god.yaml", "god.yml", ".god.yaml", "goctl.yaml", ".goctl.yaml", "config.yaml", "config.yml", "config.json",
+                   "config", "style", "namingFormat", ".env", "god.json"):
+            with open(os.path.join(d, fn), "w") as f:
+                if fn.endswith(".json"):
+                    f.write(json.dumps({"namingFormat": val, "NamingFormat": val, "style": val}))
+                elif fn == ".env":
+                    f.write("".join("%s=%s\n" % (k, val) for k in ENV_NAMES))
+                elif fn in ("style", "namingFormat", "config"):
+                    f.write(val + "\n")
+                else:
+                    f.write("namingFormat: %s\nNamingFormat: %s\nstyle: %s\n" % (val, val, val))
+
+
+def env_cases():
+    """always-run: the default style and one explicit style under every adversarial environment"""
+    out = []
+    for idx in range(1, len(ENV_PROFILES)):
+        h = [h_new(""), h_read(0), h_fmt(0, "userCenter"), h_new("goDesigner"), h_read(1), h_new(""), h_read(2)]
+        out.append(dict(mk("", "user_center", "env-default", "rt2", h), env=idx))
+        out.append(dict(mk("Go_Designer.go", "HTTPServer", "env-explicit", "camel"), env=idx))
+        out.append(dict(mk("go_des\u0131gner", "\u0131stanbul_I", "env-lookalike", "unicode"), env=idx))
+        # locale-sensitive letters (tr/az i-I, lt dotted i, el final sigma) under every casing of both words
+        for t in ("GO_DESIGNER", "Go_Designer", "go_designer", "go_DESIGNER"):
+            out.append(dict(mk(t, "ministry_ID_title_i\u0130\u0131I", "env-casing", "unicode"), env=idx))
+            out.append(dict(mk(t, "\u039f\u0394\u039f\u03a3_\u03bf\u03b4\u03bf\u03c2_i\u0307x_J\u0328", "env-casing", "unicode"), env=idx))
+    return out
+
+
 def fixed_cases():
     """always-run regression cases: the D8 witnesses of DESIGN section 7 and the documented examples"""
     out = []
@@ -389,14 +460,19 @@ def fixed_cases():
 
 
 def generate(rng, tier, n):
-    cases = [] if tier == "search" else fixed_cases()
+    cases = [] if tier == "search" else fixed_cases() + env_cases()
     if tier == "thorough":      # every possible first byte (UnTitle reads it as a Latin-1 rune)
         cases += [mk("go_designer", bytes([x]) + b"bc", "doc", "byte0") for x in range(256)]
     while len(cases) < n:
         t, tk = gen_template(rng)
         c, ck = gen_content(rng)
         h = gen_history(rng, t, c) if rng.random() < 0.3 else None
-        cases.append(mk(t, c, tk, ck, h))
+        case = mk(t, c, tk, ck, h)
+        if tk == "cfg-empty" or rng.random() < 0.08:      # started in a process with an adversarial environment
+            case["env"] = rng.randrange(1, len(ENV_PROFILES))
+            if not h and rng.random() < 0.7:
+                case["h"] = gen_history(rng, "", c)
+        cases.append(case)
     return cases
 
 
@@ -457,10 +533,24 @@ def drive(cases, tier):
         _LAST_CASES = list(cases)
     else:
         _LAST_CASES = _LAST_CASES + list(cases)
-    obs, out = run_binary(cases, "C20" if tier != "search" else "C20s")
-    log.append(out)
-    if obs is None:
-        return None, "\n".join(log)[-6000:]
+    # names of environment variables the sources under test mention: set them too in the adversarial runs
+    global _EXTRA_ENV_NAMES
+    names = set()
+    for f in glob.glob(os.path.join(MOD_DIR, "*", "*.go")):
+        txt = open(f, encoding="utf-8", errors="replace").read()
+        names.update(re.findall(r'(?:Getenv|LookupEnv)\(\s*"([A-Za-z_][A-Za-z0-9_]*)"', txt))
+    _EXTRA_ENV_NAMES = sorted(names - set(ENV_NAMES))
+    # one process per environment profile; the cases of a profile share their process, in order
+    name = "C20" if tier != "search" else "C20s"
+    obs = [None] * len(cases)
+    for idx in sorted({c.get("env", 0) for c in cases}):
+        sel = [i for i, c in enumerate(cases) if c.get("env", 0) == idx]
+        o, out = run_binary([cases[i] for i in sel], name if idx == 0 else "%se%d" % (name, idx), idx)
+        log.append(out)
+        if o is None:
+            return None, "\n".join(log)[-6000:]
+        for i, x in zip(sel, o):
+            obs[i] = x
     return obs, "\n".join(log)
 
 
@@ -468,8 +558,9 @@ DRV_BIN = os.path.join(MOD_DIR, "c20drv.bin")
 _LAST_CASES = []
 
 
-def run_binary(cases, name):
-    """one fresh process of the built driver over `cases` (the whole list shares the process)"""
+def run_binary(cases, name, env_idx=0):
+    """one fresh process of the built driver over `cases` (the whole list shares the process), started
+    with the environment and working directory of profile env_idx"""
     inp = os.path.join(vlib.WORK, "%s.in.jsonl" % name)
     outp = os.path.join(vlib.WORK, "%s.out.jsonl" % name)
     with open(inp, "w") as f:
@@ -478,8 +569,12 @@ def run_binary(cases, name):
     if os.path.exists(outp):
         os.remove(outp)
     env = dict(vlib.GOENV)
+    extra, cwd = env_of(env_idx)
+    if env_idx:
+        make_decoy_cwd(extra["GOD_NAMING_FORMAT"])
+    env.update(extra)
     env.update({"VERIF_IN": inp, "VERIF_OUT": outp})
-    rc, out = vlib.sh([DRV_BIN], cwd=MOD_DIR, env=env, timeout=DRIVER_TIMEOUT)
+    rc, out = vlib.sh([DRV_BIN], cwd=cwd, env=env, timeout=DRIVER_TIMEOUT)
     obs = None
     if os.path.exists(outp):
         obs = [json.loads(l) for l in open(outp) if l.strip()]
@@ -501,13 +596,13 @@ def shrink(v):
         r = vlib.coq_eval(ID, "C20.Exec", terms, shard=SHARD, checks=("spec_ok",), tag="k")
         return set(r["spec_ok"])
 
-    o, _ = run_binary([v["case"]], "C20k")
+    o, _ = run_binary([v["case"]], "C20k", v["case"].get("env", 0))
     if o is not None and 0 in failing([(v["case"], o[0])]):
         return {"case": v["case"], "obs": o[0]}
-    cands = sorted([c for c in _LAST_CASES if c.get("h")], key=lambda c: len(vlib.canon(c)))[:60]
+    cands = sorted([c for c in _LAST_CASES if c.get("h") or c.get("env")], key=lambda c: len(vlib.canon(c)))[:60]
     pairs = []
     for c in cands:
-        o, _ = run_binary([c], "C20k")
+        o, _ = run_binary([c], "C20k", c.get("env", 0))
         if o is not None:
             pairs.append((c, o[0]))
     bad = failing(pairs) if pairs else set()
@@ -544,7 +639,8 @@ def encode(case, obs):
             hops.append("XRead %s" % cnat(o["i"]))
         else:
             hops.append("XFmt %s %s" % (cnat(o["i"]), cstrb(o["s"])))
-    return "mkcase %s %s %s %s %s %s %s %s %s %s %s %s %s %s" % (
+    return "mkcase %s %s %s %s %s %s %s %s %s %s %s %s %s %s %s" % (
+        cnat(case.get("env", 0)),
         cstrb(case["t"]), cstrb(case["c"]), clist(runes), clist(xt),
         cobs(obs["fmt"]), cobs(obs["fmt2"]), cobs(obs["camel"]), cobs(obs["snake"]), cobs(obs["rt"]), cobs(obs["untitle"]),
         cobs(obs["cfg"]), cobs(obs["cfgfmt"]), clist(hops), clist([cobs(x) for x in obs["hobs"]]))
@@ -570,6 +666,8 @@ def bucket(case, obs):
            "fmt:" + ("ok" if "ok" in f else "err%d" % f["err"] if "err" in f else "PANIC")]
     if any("panic" in obs[k] for k in ("camel", "snake", "rt")):
         out.append("conv:PANIC")
+    if case.get("env"):
+        out.append("env:adversarial-%d" % case["env"])
     if case.get("h"):
         out.append("history:%d-configs" % min(3, sum(1 for o in case["h"] if o["op"] == "new")))
         if any("panic" in x for x in obs["hobs"]):
@@ -620,5 +718,10 @@ def explain(case, obs):
                     "rendering prefix ++ join between (style_go w1 :: map style_designer ws) ++ suffix (c20_render), or a "
                     "template lacking a word / with the words out of order / in mixed casing was not rejected (c20_reject), "
                     "or a round-trip identifier did not come back from ToSnake(ToCamel) (c20_camel_snake_roundtrip)")
+    if case.get("env"):
+        val, loc = ENV_PROFILES[case["env"] % len(ENV_PROFILES) or 1]
+        what.append("driver process started with adversarial environment profile %d (%s... = %r, LANG/LC_ALL = %s, cwd/HOME = a directory "
+                    "of decoy config files): results must equal those of a clean environment, the default template is the "
+                    "constant \"godesigner\" (c20_no_ambient_state)" % (case["env"], ", ".join(ENV_NAMES[:4]), val, loc))
     return "FileNamingFormat(%r, %r) -> %s; ToCamel -> %s; ToSnake(ToCamel) -> %s; %s" % (
         t, c, show(obs["fmt"]), show(obs["camel"]), show(obs["rt"]), "; ".join(what))
